@@ -39,7 +39,7 @@ class Engine(EngineBase, ExprMixin, CompMixin, CallMixin, FuncMixin, StmtMixin):
     def prepare_inputs(self, target: str):
         """Only the typed symbolic inputs of a function under contract (for the native small-scope search)."""
         con = REG.contracts[target]
-        module, qual = target.split(":")
+        module, qual = target.split("@")[0].split(":")      # "module:func@variant": same function, another typing
         fdef = extract.find_def(module, qual)
         parts = qual.split(".")
         cls = parts[-2] if len(parts) >= 2 and parts[-2] in self.ct.classes else None
@@ -60,7 +60,7 @@ class Engine(EngineBase, ExprMixin, CompMixin, CallMixin, FuncMixin, StmtMixin):
     def verify_function(self, target: str):
         """Generate the obligations of one function under contract.  Returns list[Obligation]."""
         con = REG.contracts[target]
-        module, qual = target.split(":")
+        module, qual = target.split("@")[0].split(":")
         fdef = extract.find_def(module, qual)
         if not isinstance(fdef, ast.FunctionDef):
             raise EngineError(f"{target} is not a function definition")
@@ -72,6 +72,7 @@ class Engine(EngineBase, ExprMixin, CompMixin, CallMixin, FuncMixin, StmtMixin):
         self.cur_raises = dict(con.raises)
         self.opaque_raise = con.opaque_raise
         self.cur_type_map = dict(con.type_map)
+        self.fp_mode = bool(getattr(con, "fp", False) or getattr(con, "note", "") == "fp")   # floats as IEEE doubles
         self._cm_at_yield = list(con.at_yield)
         self.obligations = []
         self.npaths = 0
@@ -394,6 +395,25 @@ def has_ufs(terms) -> bool:
     return False
 
 
+def _has_real_to_fp(fmls):
+    """Does some formula convert a non-numeral real to a floating-point number?"""
+    seen, todo = set(), list(fmls)
+    while todo:
+        t = todo.pop()
+        if t.get_id() in seen:
+            continue
+        seen.add(t.get_id())
+        if z3.is_quantifier(t):
+            todo.append(t.body())
+            continue
+        if z3.is_app(t):
+            if t.decl().kind() == z3.Z3_OP_FPA_TO_FP and t.num_args() == 2 and z3.is_real(t.arg(1)) \
+                    and not z3.is_rational_value(t.arg(1)):
+                return True
+            todo.extend(t.children())
+    return False
+
+
 def discharge(ob: Obligation, timeout_ms=10000, use_cvc5=True):
     """Decide pc => goal.  Sets ob.result in {discharged, refuted, unknown}."""
     if getattr(ob, "is_cover", False):
@@ -433,6 +453,12 @@ def discharge(ob: Obligation, timeout_ms=10000, use_cvc5=True):
                 res = z3.unknown      # without MBQI a 'sat' is not a model of the quantifiers
                 continue
             ob.result, ob.backend, model = "refuted", "z3", s.model()
+            if use_cvc5 and _has_real_to_fp(list(ob.pc) + [ob.goal]):
+                # z3 leaves the rounding of a symbolic real to a float partly uninterpreted: its 'sat' may be spurious
+                # (its 'unsat' is not).  cvc5 implements the conversion; only an 'unsat' from it is taken.
+                r, who = cvc5_check(ob, timeout_ms)
+                if r == "unsat":
+                    ob.result, ob.backend, model = "discharged", who, None
             break
         reason = s.reason_unknown()
     if res == z3.unknown:
